@@ -207,7 +207,11 @@ def write_spec(spec, path):
 
 def cmdline(spec_path, log_path, role='main', extra=()):
     """argv of the command under test (without the file)."""
-    return [ORACLE_BIN, '--spec', spec_path, '--log', log_path, '--role', role] + list(extra)
+    # 'main' and 'cc' are two different programs with the same file name in different
+    # directories (each refuses to act for the other)
+    special = os.path.join(os.path.dirname(ORACLE_BIN), role, 'oracle_cmd')
+    binary = special if role in ('main', 'cc') and os.path.exists(special) else ORACLE_BIN
+    return [binary, '--spec', spec_path, '--log', log_path, '--role', role] + list(extra)
 
 
 def run_oracle(spec_path, log_path, file, role='main', extra=(), timeout=20):
